@@ -221,6 +221,18 @@ func (s *LevelDBStore) GetBulkIterator(start, limit uint64) iterator.Iterator {
 	})
 }
 
+// keyRangeIterator returns an iterator over the keys in [startKey, limitKey).
+func (s *LevelDBStore) keyRangeIterator(startKey, limitKey []byte) iterator.Iterator {
+	s.mu.RLock()
+	defer s.mu.RUnlock()
+	return s.db.NewIterator(&util.Range{
+		Start: startKey,
+		Limit: limitKey,
+	}, &opt.ReadOptions{
+		DontFillCache: true,
+	})
+}
+
 // GetLog implements raft.LogStore.
 func (s *LevelDBStore) GetLog(index uint64, rlog *raft.Log) error {
 	s.mu.RLock()
@@ -320,7 +332,15 @@ func (s *LevelDBStore) StoreLogProto(msg *pb.RaftLog) error {
 
 // DeleteRange implements raft.LogStore.
 func (s *LevelDBStore) DeleteRange(min, max uint64) error {
-	iterator := s.GetBulkIterator(min, max+1)
+	// The range is inclusive. The (exclusive) upper bound of the iterator is
+	// the smallest key which is greater than the key of max, i.e. the key of
+	// max followed by a zero byte. Using the key of max+1 instead would wrap
+	// around for the largest index and silently delete nothing.
+	startKey := make([]byte, 8)
+	limitKey := make([]byte, 9)
+	binary.BigEndian.PutUint64(startKey, min)
+	binary.BigEndian.PutUint64(limitKey, max)
+	iterator := s.keyRangeIterator(startKey, limitKey)
 	defer iterator.Release()
 
 	s.mu.Lock()
